@@ -211,7 +211,13 @@ def run(tier, seed):
             "process running the real recovery code; oracle: recovery succeeds, log contiguous, only submitted entries, every acknowledged entry "
             "present (unless behind an acknowledged cut / below a pointer), last-applied <= max(log end, snapshot end). non-trivial image = image "
             "after a file mutation or marker; distinct = (kind of the last mutation before the cut, history feature set)")
-    return drive("C04", tier, seed, "C04", ["mixed", "snap", "meta", "cutidx"], rule)
+    import c04_install
+    rule += ("; complete-node part: a follower (complete node under the interposer, fresh or holding a log prefix) is handed a leader's snapshot "
+             "through create_snapshot / finalize_snapshot_installation and then the entries behind it; every prefix of that window's file mutations "
+             "is restarted by a fresh node: it must start, serve the old or the snapshot state (never a mixture), with matching membership, a "
+             "reproducible applied index, a contiguous log, never the old state under a log that ends behind the snapshot, and the leader's next "
+             "steps (snapshot again if needed, then the entries) must lead to the leader's final state, also after one more restart")
+    return drive("C04", tier, seed, "C04", ["mixed", "snap", "meta", "cutidx"], rule, extra_part=c04_install.part)
 
 
 def replay(path):
